@@ -29,8 +29,9 @@ def _op():
     prio = wone_of(st.sampled_from([-1, 0, 1]), st.sampled_from(PRIOS), st.integers(-4, 4))
     add = st.fixed_dictionaries({"op": st.just("add"), "id": st.integers(0, POOL - 1), "prio": prio,
                                  "kind": st.sampled_from(["sys", "sys", "sys", "coll", "colldef", "falsy"]),
-                                 "np": st.sampled_from([None, None, None, None, "u8", "i8", "i64", "u64", "u16"])})
-    rem = st.fixed_dictionaries({"op": st.just("remove"), "id": st.integers(0, POOL - 1)})
+                                 "np": st.sampled_from([None, None, None, None, "u8", "i8", "i64", "u64", "u16"]),
+                                 "same": st.sampled_from([False, False, True])})
+    rem = st.fixed_dictionaries({"op": st.just("remove"), "id": st.integers(0, POOL - 1), "via": st.sampled_from(["remove_system", "clean_up"])})
     step = st.fixed_dictionaries({"op": st.just("step"), "n": st.sampled_from([1, 1, 1, 2, 3])})
     return wone_of(add, add, add, rem, step)
 
@@ -96,6 +97,9 @@ def exhaustive(tier):
                 for p in levels:
                     yield {"ops": base + [{"op": "remove", "id": i}, {"op": "step", "n": 1},
                                           {"op": "add", "id": i, "prio": p, "kind": "sys"}, {"op": "step", "n": 1}]}
+                if tier != "quick" or n <= 3:
+                    yield {"ops": base + [{"op": "remove", "id": i, "via": "clean_up"}, {"op": "step", "n": 1},
+                                          {"op": "add", "id": i, "prio": 0, "kind": "sys", "same": True}, {"op": "step", "n": 1}]}
 
 
 NP_KINDS = {"u8": "uint8", "i8": "int8", "i64": "int64", "u64": "uint64", "u16": "uint16"}
@@ -121,6 +125,7 @@ def run_case(case):
     token = 0
     nontrivial = False
     removed_once = set()
+    graveyard = {}     # id -> last removed object with that id
     labels = set()
     ops = list(case["ops"]) + [{"op": "step", "n": 1}]
 
@@ -149,6 +154,11 @@ def run_case(case):
                 obj = FalsySystem(sid, model, log, token, priority=given)
             else:
                 obj = RecSystem(sid, model, log, token, priority=given)
+            if op.get("same") and i in graveyard and i not in live:
+                obj = graveyard.pop(i)              # the very object that was removed earlier is registered again
+                prio = int(obj.priority)
+                token = obj._token
+                labels.add("same-object-re-registered")
             if i in live:
                 expect_raises("duplicate-add-keyerror", KeyError, model.systems.add_system, obj)
                 labels.add("rejected-add")
@@ -163,7 +173,12 @@ def run_case(case):
         elif kind == "remove":
             i = int(op["id"]) % POOL
             if i in live:
-                model.systems.remove_system(f"s{i}")
+                if op.get("via") == "clean_up":
+                    live[i][0].clean_up()           # the convenience entry point: the system removes itself
+                    labels.add("removed-via-clean_up")
+                else:
+                    model.systems.remove_system(f"s{i}")
+                graveyard[i] = live[i][0]
                 del live[i]
                 removed_once.add(i)
             else:
